@@ -32,3 +32,19 @@ func init() {
 		Rule:  "one evaluation = either one client issuing up to 200 operations (refinement against a Go map, operation by operation, including snapshot-mutation and merge-of-alias steps) or 2..4 clients whose GetAll/Keys snapshots are deep-copied at hand-out, poisoned by their holder or left alone, and re-validated at the end; non-trivial = >=3 operations (1 client) or overlapping operations (several clients); distinct = distinct hash of (scenario shape, scheduler choice sequence)",
 	}
 }
+
+const flowRule = "one evaluation = one generated scenario (nodes of every kind with scripted per-invocation outcomes, flows, batch nodes, configuration, context) executed on the instrumented flyt under one seeded schedule on the fake clock and compared with the reference model; distinct = distinct hash of (scenario, sequence of (task id, site) scheduler choices); "
+
+func init() {
+	props["C01"] = &propCfg{Parts: []part{{Engine: "flowsim", Quick: 60000, Thorough: 1500000}},
+		Rule: flowRule + "non-trivial = at least three callback invocations"}
+	props["C02"] = &propCfg{Parts: []part{{Engine: "flowsim", Quick: 60000, Thorough: 1500000}},
+		Rule: flowRule + "non-trivial = at least three callback invocations and at least one injected fault fired",
+		Must: []string{"fallback_after_retries", "retry_attempt"}}
+	props["C03"] = &propCfg{Parts: []part{{Engine: "flowsim", Quick: 60000, Thorough: 1500000}},
+		Rule: flowRule + "non-trivial = at least two node visits on the executed path",
+		Must: []string{"self_loop_or_revisit", "node_revisited"}}
+	props["C04"] = &propCfg{Parts: []part{{Engine: "flowsim", Quick: 60000, Thorough: 1500000}},
+		Rule: flowRule + "non-trivial = at least three callback invocations and (in the faulty configuration) at least one injected fault fired",
+		Must: []string{"run_failed_at_prep", "run_failed_at_exec", "run_failed_at_post", "run_failed_at_fb"}}
+}
